@@ -3,6 +3,7 @@
 // a file whose size limit (RLIMIT_FSIZE) is one FITS block, so the flush at close fails; it must not report success.  exit 3 = REPRODUCED.
 #include "mktable.hpp"
 #include <cstdio>
+#include <fitsio.h>
 #include <cstring>
 #include <fstream>
 #include <unistd.h>
@@ -21,7 +22,14 @@ int main(int argc, char** argv){
   if (periods) { t.periods = t.allocate<double>(nd); for (unsigned d = 0; d < nd; d++) t.periods[d] = 360.0 + d; }
   for (auto& a : aux) t.write_key(a.first.c_str(), a.second.c_str());
   int bad = 0;
-  if (faults && what.find("output cut") != std::string::npos) {
+  if (!faults && what.find("default") != std::string::npos && what.find("extent") != std::string::npos) {
+    // a file without an EXTENTS extension (legacy layout): the reader must make up [knots[order], knots[nknots-order-1]]
+    char path[] = "/var/tmp/psreplay_XXXXXX"; int fd = mkstemp(path); close(fd); t.write_fits(path);
+    { fitsfile* f; int st = 0, hd = 0; fits_open_file(&f, path, READWRITE, &st); fits_movnam_hdu(f, IMAGE_HDU, (char*)"EXTENTS", 0, &st); fits_delete_hdu(f, &hd, &st); fits_close_file(f, &st); if (st) printf("could not remove the EXTENTS extension (status %d)\n", st); }
+    ST r; try { r.read_fits(path); } catch (std::exception& e) { printf("read threw: %s\n", e.what()); bad = 1; }
+    for (unsigned d = 0; d < nd && !bad; d++) if (r.extents[d][0] != t.knots[d][ord[d]] || r.extents[d][1] != t.knots[d][nk[d] - ord[d] - 1]) { printf("dimension %u: default extents [%g, %g], expected [%g, %g] = [knots[order], knots[nknots-order-1]]\n", d, r.extents[d][0], r.extents[d][1], t.knots[d][ord[d]], t.knots[d][nk[d] - ord[d] - 1]); bad = 1; }
+    unlink(path);
+  } else if (faults && what.find("output cut") != std::string::npos) {
     // byte-granularity prefixes of the real file: a prefix must be rejected or load with equal orders / knots / coefficients
     char path[] = "/var/tmp/psreplay_XXXXXX"; int fd = mkstemp(path); close(fd); t.write_fits(path);
     std::ifstream f(path, std::ios::binary); std::vector<char> bytes((std::istreambuf_iterator<char>(f)), std::istreambuf_iterator<char>()); f.close();
